@@ -2,7 +2,7 @@
   C02 — Formatting is idempotent: property theorems on the L4 model, fragment F0, every printer
   option except KeepPadding.
 -/
-import ShVerif.Proofs.L4
+import ShVerif.Proofs.L4Parse
 namespace ShVerif.Props.C02
 open ShVerif ShVerif.L4
 
@@ -78,6 +78,21 @@ theorem closingParen_first :
 
 theorem closingParen_second :
     reprint {} .posix (bytesOfString "( (\n\ta\n\tb\n) )\n") = .ok (bytesOfString "( (\n\ta\n\tb\n))\n") := by
+  decide +kernel
+
+
+/-! ## Stated, not proved
+
+  Idempotence on the part of F0 that avoids the two recorded shapes.  A definition, not a
+  theorem; checked by execution (`specidem` ops: model and Go code side by side) on every run. -/
+
+def idempotent_partial_statement : Prop :=
+  ∀ (o : Opts) (l : Lang) (f f' : File) (b : Bytes), f.wf = true → posMono f → f.stmts.noParenParen = true →
+    o.keepPadding = false → o.minify = false → o.singleLine = false →
+    printFile o f = .ok b → parse l b = .ok f' → printFile o f' = .ok b
+
+/-- both witnesses are excluded by the side condition, as they must be -/
+example : trailingBlankWitness.stmts.noParenParen = false ∧ closingParenWitness.stmts.noParenParen = false := by
   decide +kernel
 
 end ShVerif.Props.C02
